@@ -10,6 +10,8 @@ use std::sync::mpsc;
 use std::sync::{Arc, Mutex};
 use std::time::Duration;
 
+pub const MARK: &str = "@@VRF@@";
+
 pub enum WorkerReply {
     Ok(Value),
     Crash(String),
@@ -37,11 +39,16 @@ fn spawn_worker(prop: &str) -> Worker {
     let (tx, rx) = mpsc::channel();
     std::thread::spawn(move || {
         let r = BufReader::new(stdout);
-        for line in r.lines() {
+        // typify itself prints to stdout on some paths (merge.rs); only lines
+        // carrying the protocol marker are replies
+        for line in r.split(b'\n') {
             match line {
-                Ok(l) => {
-                    if tx.send(l).is_err() {
-                        break;
+                Ok(bytes) => {
+                    let l = String::from_utf8_lossy(&bytes);
+                    if let Some(rest) = l.strip_prefix(MARK) {
+                        if tx.send(rest.to_string()).is_err() {
+                            break;
+                        }
                     }
                 }
                 Err(_) => break,
@@ -150,7 +157,7 @@ pub fn worker_main(f: impl Fn(Value) -> Value + Send + 'static) {
                     Ok(v) => v,
                     Err(e) => {
                         let mut o = stdout.lock();
-                        let _ = writeln!(o, "{}", serde_json::json!({"__bad_request": e.to_string()}));
+                        let _ = writeln!(o, "\n{}{}", MARK, serde_json::json!({"__bad_request": e.to_string()}));
                         let _ = o.flush();
                         continue;
                     }
@@ -160,7 +167,7 @@ pub fn worker_main(f: impl Fn(Value) -> Value + Send + 'static) {
                     Err(p) => serde_json::json!({"__worker_panic": p}),
                 };
                 let mut o = stdout.lock();
-                let _ = writeln!(o, "{}", serde_json::to_string(&out).unwrap());
+                let _ = writeln!(o, "\n{}{}", MARK, serde_json::to_string(&out).unwrap());
                 let _ = o.flush();
             }
         })
